@@ -61,6 +61,7 @@ func runBoundary(p *core.Prog) *core.Result {
 	const (
 		cRecovered    = "recover()!=nil"
 		cUncatchable  = "asUncatchableException(x)!=nil"
+		cForeign      = "asUncatchableException(x)==nil"
 		cStackEmpty   = "len(callStack)==0"
 		cNotRecursive = "!recursive (len(callStack)>0 at entry)"
 		cOther        = "other"
@@ -84,8 +85,11 @@ func runBoundary(p *core.Prog) *core.Result {
 			if isRecoverCall(x) && pol {
 				return cRecovered
 			}
-			if c, ok := x.(*ssa.Call); ok && c.Call.StaticCallee() == asUnc && pol {
-				return cUncatchable
+			if c, ok := x.(*ssa.Call); ok && c.Call.StaticCallee() == asUnc {
+				if pol {
+					return cUncatchable
+				}
+				return cForeign
 			}
 			return cOther
 		}
@@ -176,8 +180,25 @@ func runBoundary(p *core.Prog) *core.Result {
 		if len(las) == 0 {
 			res.Bad(key, p.Pos(calls[0].Pos()), "recover handler converts an uncatchable payload (interrupt, stack overflow) into an error return but never calls leaveAbrupt(): queued promise jobs of the interrupted run survive and the interrupt flag stays set, so the next call returns the stale InterruptedError")
 		}
+		nFor := 0
 		for _, la := range las {
 			cs, others := condSet(la.Block())
+			if cs[cForeign] > 0 && cs[cUncatchable] == 0 {
+				// clean-up before a foreign Go panic is passed on: same guard discipline
+				k3 := name + ":foreign->leaveAbrupt"
+				switch {
+				case len(others) > 0:
+					res.Bad(k3, p.Pos(la.Pos()), fmt.Sprintf("leaveAbrupt() on the foreign-panic path is guarded by an extra condition (%v)", others))
+				case cs[cRecovered] == 0:
+					res.Bad(k3, p.Pos(la.Pos()), "leaveAbrupt() is not on the recovered path")
+				case cs[cStackEmpty] == 0 && cs[cNotRecursive] == 0:
+					res.Bad(k3, p.Pos(la.Pos()), "leaveAbrupt() on the foreign-panic path is not guarded by an empty call stack")
+				default:
+					nFor++
+					res.OK(k3, p.Pos(la.Pos()), "a foreign Go panic passing the outermost boundary drops the run's execution state first")
+				}
+				continue
+			}
 			switch {
 			case len(others) > 0:
 				res.Bad(key, p.Pos(la.Pos()), fmt.Sprintf("leaveAbrupt() is guarded by an extra condition (%v): some interrupted outermost calls keep their job queue / interrupt flag", others))
@@ -189,6 +210,9 @@ func runBoundary(p *core.Prog) *core.Result {
 				res.OK(key, p.Pos(la.Pos()), "uncatchable branch reaches leaveAbrupt() guarded only by the empty call stack")
 			}
 		}
+		if nFor == 0 {
+			res.Bad(name+":foreign->leaveAbrupt", p.Pos(calls[0].Pos()), "a Go panic that is neither a JS exception nor an uncatchable error (a host callback that panicked) is re-panicked from the outermost boundary without leaveAbrupt(): vm.prg stays set (phantom frame in later stack traces) and the promise jobs queued by the aborted run execute during the next call")
+		}
 		// the uncatchable-branch must not have a path that skips both leaveAbrupt and the stack test:
 		// the stack-empty If must be controlled by nothing but {recovered, uncatchable}
 		for _, la := range las {
@@ -196,7 +220,7 @@ func runBoundary(p *core.Prog) *core.Result {
 				if c := classify(cp); c == cStackEmpty || c == cNotRecursive {
 					cs, others := condSet(cp.If.Block())
 					k2 := name + ":abrupt-stack-test"
-					if len(others) > 0 || cs[cUncatchable] == 0 {
+					if len(others) > 0 || (cs[cUncatchable] == 0 && cs[cForeign] == 0) {
 						res.Bad(k2, p.Pos(cp.If.Pos()), fmt.Sprintf("the call-stack test guarding leaveAbrupt() is itself conditional (%v)", others))
 					} else {
 						res.OK(k2, p.Pos(cp.If.Pos()), "call-stack test evaluated on every uncatchable path")
